@@ -39,6 +39,31 @@ func init() {
 		},
 		"internal/stringslite.Index":     func(fr *frame, a []value) (value, bool) { return indexSub(fr, strBytes(a[0]), strBytes(a[1])), true },
 		"internal/stringslite.IndexByte": func(fr *frame, a []value) (value, bool) { return indexByte(fr, strBytes(a[0]), a[1]), true },
+		"strings.Contains":               func(fr *frame, a []value) (value, bool) { return containsSub(fr, strBytes(a[0]), strBytes(a[1])), true },
+		"strings.ContainsAny": func(fr *frame, a []value) (value, bool) {
+			chars, ok := a[1].(string)
+			if !ok || !isASCII(chars) {
+				return nil, false
+			}
+			if s, ok := a[0].(string); ok {
+				return strings.ContainsAny(s, chars), true
+			}
+			return containsAny(fr, strBytes(a[0]), chars), true
+		},
+		"strings.ContainsRune": func(fr *frame, a []value) (value, bool) {
+			rn, ok := a[1].(int32)
+			if !ok || rn >= 0x80 || rn < 0 {
+				return nil, false
+			}
+			return containsAny(fr, strBytes(a[0]), string(rune(rn))), true
+		},
+		"strings.IndexRune": func(fr *frame, a []value) (value, bool) {
+			rn, ok := a[1].(int32)
+			if !ok || rn >= 0x80 || rn < 0 {
+				return nil, false
+			}
+			return indexByte(fr, strBytes(a[0]), uint8(rn)), true
+		},
 		"strings.Index":                  func(fr *frame, a []value) (value, bool) { return indexSub(fr, strBytes(a[0]), strBytes(a[1])), true },
 		"strings.IndexByte":              func(fr *frame, a []value) (value, bool) { return indexByte(fr, strBytes(a[0]), a[1]), true },
 		"strings.LastIndex":              func(fr *frame, a []value) (value, bool) { return lastIndexSub(fr, strBytes(a[0]), strBytes(a[1])), true },
@@ -123,38 +148,72 @@ func validUTF8(s string) bool {
 	return true
 }
 
+// firstMatch builds the symbolic int "index of the first position whose match
+// term holds, else -1" without forking (scan order given by idxs).
+func firstMatch(r *pathRun, matches []*Term, idxs []int) value {
+	c := r.ctx
+	res := c.Const(64, ^uint64(0))
+	for k := len(matches) - 1; k >= 0; k-- {
+		res = c.Ite(matches[k], c.Const(64, uint64(idxs[k])), res)
+	}
+	return mkScalar(res, types.Int)
+}
+
 func indexByte(fr *frame, s []value, c value) value {
 	r := fr.i.run
 	ct := r.ctx.toTerm(c)
+	var ms []*Term
+	var ix []int
 	for i, b := range s {
-		if r.decide(r.ctx.Eq(r.ctx.toTerm(b), ct), "IndexByte") {
-			return i
-		}
+		ms = append(ms, r.ctx.Eq(r.ctx.toTerm(b), ct))
+		ix = append(ix, i)
 	}
-	return -1
+	return firstMatch(r, ms, ix)
 }
 
 func lastIndexByte(fr *frame, s []value, c value) value {
 	r := fr.i.run
 	ct := r.ctx.toTerm(c)
+	var ms []*Term
+	var ix []int
 	for i := len(s) - 1; i >= 0; i-- {
-		if r.decide(r.ctx.Eq(r.ctx.toTerm(s[i]), ct), "LastIndexByte") {
-			return i
-		}
+		ms = append(ms, r.ctx.Eq(r.ctx.toTerm(s[i]), ct))
+		ix = append(ix, i)
 	}
-	return -1
+	return firstMatch(r, ms, ix)
 }
 
 func countByte(fr *frame, s []value, c value) value {
 	r := fr.i.run
 	ct := r.ctx.toTerm(c)
-	n := 0
+	n := r.ctx.Const(64, 0)
 	for _, b := range s {
-		if r.decide(r.ctx.Eq(r.ctx.toTerm(b), ct), "CountByte") {
-			n++
+		n = r.ctx.Bin(OpAdd, n, r.ctx.Ite(r.ctx.Eq(r.ctx.toTerm(b), ct), r.ctx.Const(64, 1), r.ctx.Const(64, 0)))
+	}
+	return mkScalar(n, types.Int)
+}
+
+// containsAny: OR over positions and characters, no fork.
+func containsAny(fr *frame, s []value, chars string) value {
+	r := fr.i.run
+	c := r.ctx
+	res := c.False
+	for _, b := range s {
+		bt := c.toTerm(b)
+		for i := 0; i < len(chars); i++ {
+			res = c.Or(res, c.Eq(bt, c.Const(8, uint64(chars[i]))))
 		}
 	}
-	return n
+	return mkBool(res)
+}
+
+func isASCII(s string) bool {
+	for i := 0; i < len(s); i++ {
+		if s[i] >= 0x80 {
+			return false
+		}
+	}
+	return true
 }
 
 func matchAt(r *pathRun, s, sub []value, i int) *Term {
@@ -170,22 +229,33 @@ func matchAt(r *pathRun, s, sub []value, i int) *Term {
 
 func indexSub(fr *frame, s, sub []value) value {
 	r := fr.i.run
+	var ms []*Term
+	var ix []int
 	for i := 0; i+len(sub) <= len(s); i++ {
-		if r.decide(matchAt(r, s, sub, i), "Index") {
-			return i
-		}
+		ms = append(ms, matchAt(r, s, sub, i))
+		ix = append(ix, i)
 	}
-	return -1
+	return firstMatch(r, ms, ix)
 }
 
 func lastIndexSub(fr *frame, s, sub []value) value {
 	r := fr.i.run
+	var ms []*Term
+	var ix []int
 	for i := len(s) - len(sub); i >= 0; i-- {
-		if r.decide(matchAt(r, s, sub, i), "LastIndex") {
-			return i
-		}
+		ms = append(ms, matchAt(r, s, sub, i))
+		ix = append(ix, i)
 	}
-	return -1
+	return firstMatch(r, ms, ix)
+}
+
+func containsSub(fr *frame, s, sub []value) value {
+	r := fr.i.run
+	res := r.ctx.False
+	for i := 0; i+len(sub) <= len(s); i++ {
+		res = r.ctx.Or(res, matchAt(r, s, sub, i))
+	}
+	return mkBool(res)
 }
 
 func compareBytes(fr *frame, a, b []value) value {
